@@ -114,6 +114,47 @@ def check_config(ctx, F, tag):
     fields_read = sorted({tuple(self_path(x)) for x in subterms(t) if x[0] == "field" and self_path(x)} | set())
     ctx.ob("C19.R1.supports-pred-succ", sp.name + tag, loc(sp.raw["span"]), True, "informational", "supports_pred_succ reads %s" % fields_read, nontrivial=False)
 
+    # predecessor / successor use rank *and* select: the flag is true only when both structures are present
+    def presence(term):
+        c = core(term)
+        if c[0] == "call" and len(c[2]) >= 1 and self_path(c[2][0]) is not None and len(self_path(c[2][0])) == 1:
+            last = c[1].split("::")[-1]
+            if last == "is_some" and len(c[2]) == 1:
+                return self_path(c[2][0])[0]
+            if last == "ne" and len(c[2]) == 2 and is_none_term(c[2][1]):
+                return self_path(c[2][0])[0]
+        return None
+
+    def present_here(b, bi):
+        have = set()
+        for f in facts_at(b, bi):
+            if f[0] == "bool" and f[2] is True and presence(f[1]):
+                have.add(presence(f[1]))
+            if f[0] == "discr" and f[2] == 1:
+                src = core(f[1])
+                src = core(src[1]) if src[0] == "discr" else src
+                if self_path(src) and len(self_path(src)) == 1:
+                    have.add(self_path(src)[0])
+        return have
+    need = {"rank", "select"}
+    bad = []
+    defs0 = [d for d in sp.defs().get(0, []) if d[2] in ("assign", "call")]
+    for (bi, si, kind, payload) in defs0:
+        v = core(sp.term_of_rvalue(payload) if kind == "assign" else sp.term_of_call(payload))
+        have = set(present_here(sp, bi))
+        if v[0] == "const" and v[1] == 0:
+            continue
+        if v[0] == "bin" and v[1] == "BitAnd" and presence(v[2]) and presence(v[3]):
+            have |= {presence(v[2]), presence(v[3])}
+        elif presence(v):
+            have.add(presence(v))
+        elif not (v[0] == "const" and v[1] == 1):
+            have = None            # unknown shape: not judged
+        if have is not None and not need <= have:
+            bad.append("`%s` returned with only %s known present" % (tstr(v)[:40], sorted(have)))
+    ctx.ob("C19.R1.pred-succ-needs-rank-and-select", sp.name + tag, loc(sp.raw["span"]), not bad, "per-path-facts",
+           "supports_pred_succ() can return true without both rank and select present: %s" % bad)
+
     # who stores the option fields, crate-wide
     who = {}
     for b in F.all_bodies():
@@ -166,6 +207,12 @@ def check_config(ctx, F, tag):
 
     check_validation_formulas(ctx, F, tag)
     check_partial_unit_counts(ctx, F, tag)
+    if not getattr(ctx, "_map", None):
+        import c01
+        from core import Relabel
+        c01.check_select_layout(Relabel(ctx, {"C01.R4.": "C19.R4."}), F, tag)     # enabling select never changes answers: what is stored is what is read
+    import c09
+    c09.check_wm_load_width(ctx, F, tag, rule="C19.R3.wm-core-load-width")     # embedding structures load: every width the core can be built with
 
     # ---------------- R3 composite loaders
     check_composite_loaders(ctx, F, tag, "C19.R3")
